@@ -39,4 +39,36 @@ def handleSubImpl (args : List String) : String :=
     | none => "E"
   | _, _, _, _, _, _ => "bad-args"
 
+def showTreeRes (ids pids tys xs : List Int)
+    (r : Option ((List Int) × (List Int) × (List Int) × (List Int) × (List Int) × (Int × ((List Int × List Int × List Int × List Int) × (String × Nat))))) : String :=
+  match r with
+  | some (om, i', p', t', x', (n, (nid, npid, nty, nx), src, nm)) =>
+    let same := decide (i' = ids) && decide (p' = pids) && decide (t' = tys) && decide (x' = xs) && src == "src" && nm == 42
+    s!"{Proto.showInts nid} / {Proto.showInts npid} / {Proto.showInts nty} / {Proto.showInts nx} / {Proto.showInts om} / {n} / {if same then "same" else "CHANGED"}"
+  | none => "E"
+
+/-- `gtosubfull pids=.. types=.. xs=.. rm=..` / `ggetsubfull pids=.. types=.. xs=.. n=k` / `gtosubdep pids=.. types=.. xs=.. subids=..`: the GENERATED
+`to_subtree` / `get_subtree` / `to_sub_tree` over ALL columns of a tree object (ids = positions), `out_mapping` a pre-filled list -/
+def handleSubFull (what : String) (args : List String) : String :=
+  match Proto.argInts args "pids", Proto.argInts args "types", Proto.argInts args "xs" with
+  | some pids, some tys, some xs =>
+    let ids := (List.range pids.length).map (fun (k : Nat) => (k : Int))
+    let fuel := 2 * pids.length + 3
+    match what with
+    | "gtosubfull" => match Proto.argInts args "rm" with
+      | some rm => showTreeRes ids pids tys xs (to_subtree_tree (A := Int) (Src := String) (Nm := Nat) fuel ids pids tys xs "src" 42 rm [7, 7])
+      | none => "bad-args"
+    | "ggetsubfull" => match Proto.argInt args "n" with
+      | some n => showTreeRes ids pids tys xs (get_subtree_tree (A := Int) (Src := String) (Nm := Nat) fuel ids pids tys xs "src" 42 n [7, 7])
+      | none => "bad-args"
+    | "gtosubdep" => match Proto.argInts args "subids" with
+      | some sids =>
+        match to_sub_tree (A := Int) (Src := String) (Nm := Nat) fuel ids pids tys xs "src" 42 (sids, pids) with
+        | some (i', p', t', x', (tr, idmap)) =>
+          showTreeRes ids pids tys xs (some ([], i', p', t', x', tr)) ++ " / " ++ ";".intercalate (idmap.map fun kv => s!"{kv.1}:{kv.2}")
+        | none => "E"
+      | none => "bad-args"
+    | _ => "bad-op"
+  | _, _, _ => "bad-args"
+
 end AlgoRun
